@@ -153,7 +153,6 @@ def psum(ex, se, xs):
 @spec_fn("count_nonempty")
 def count_nonempty(ex, se, f):
     """C with C(0) = 0 and C(j+1) = C(j) + (0 if the box payloads[j] holds the fiber's default else 1)."""
-    C = z3.Function(fresh_name("C"), I, I)
     if isinstance(f, VOpt):
         f = f.val
     payloads = _fld(ex, se, f, "payloads")
@@ -163,6 +162,10 @@ def count_nonempty(ex, se, f):
     d = ex.sp_load(se, f.t, "Fiber", "g_default")
     j = z3.Int("j!b")
     val = ex.sp_load(se, arr[j], "Payload", "value")
+    # the defined function is named after what defines it (the list, the box values, the default), so that a caller and a
+    # callee that count the same fiber in the same state speak about the same function
+    import hashlib
+    C = z3.Function("C!" + hashlib.sha1((arr.sexpr() + "|" + val.t.sexpr() + "|" + ops.as_u(d).sexpr()).encode()).hexdigest()[:12], I, I)
     se.facts.append(C(0) == 0)
     se.facts.append(z3.ForAll([j], z3.Implies(j >= 0, C(j + 1) == C(j) + z3.If(val.t == ops.as_u(d), 0, 1)), patterns=[C(j + 1)]))
     return VFunc("uf", name="C", argtys=[parse_ty("int")], retty=parse_ty("int"), fns=[C])
